@@ -376,7 +376,7 @@ theorem indicesOk_dictOf (d : Decl) (vl : C05.VList Corner String) (ob : List (O
 theorem declOb_bound (d : Decl) (h8 : ∀ o ∈ declOps d, o.corners.length = 8) :
     ∀ x ∈ (declOps d).zip ((declVA d).2.map (·.map (·.index))),
       x.2.length = 8 ∧ ∀ v ∈ x.2, v < (declVA d).1.vertices.length := by
-  obtain ⟨k1, _, _, k4, k5⟩ := assemble_winv closeCorner (C05.slavePatches d.mergedBefore)
+  obtain ⟨k1, _, _, k4, k5⟩ := assemble_winv closeCorner (C05.slavePatches (declMerged d))
     ((declOps d).map OpDecl.toC05) (vl := {}) winv_empty
   intro x hx
   obtain ⟨o, vs⟩ := x
@@ -430,12 +430,17 @@ theorem addGeometry_all {G : GEntry → Prop} {gs : List GEntry} (h : GAll G gs)
 
 theorem declGeometry_all (G : GEntry → Prop) (d : Decl) (h1 : ∀ g ∈ d.geomBefore, G g)
     (h2 : ∀ g ∈ d.depot.flatMap (·.geometry), G g) (h3 : ∀ g ∈ d.geomAfter, G g) : GAll G (declGeometry d) :=
-  foldl_inv (GAll G) _ d.geomAfter _
-    (foldl_inv (GAll G) _ (d.depot.flatMap (·.geometry)) _
-      (foldl_inv (GAll G) _ d.geomBefore [] (by intro g hg; simp at hg)
-        (fun acc g hg hacc => addGeometry_all hacc (h1 g hg)))
-      (fun acc g hg hacc => addGeometry_all hacc (h2 g hg)))
-    (fun acc g hg hacc => addGeometry_all hacc (h3 g hg))
+  foldl_inv (GAll G) _ _ _
+    (foldl_inv (GAll G) _ d.geomAfter _
+      (foldl_inv (GAll G) _ (d.depot.flatMap (·.geometry)) _
+        (foldl_inv (GAll G) _ d.geomBefore [] (by intro g hg; simp at hg)
+          (fun acc g hg hacc => addGeometry_all hacc (h1 g hg)))
+        (fun acc g hg hacc => addGeometry_all hacc (h2 g hg)))
+      (fun acc g hg hacc => addGeometry_all hacc (h3 g hg)))
+    (fun acc g hg hacc => addGeometry_all hacc (h2 g (by
+      split at hg
+      · exact hg
+      · simp at hg)))
 
 /-- every setting statement of every patch satisfies `S` -/
 def PSet (S : List Tree → Prop) (ps : List PEntry) : Prop := ∀ p ∈ ps, ∀ s ∈ p.settings, S s
